@@ -131,6 +131,31 @@ def sig_layer(pid="C07", quick_s=20, thorough_s=400):
     return run
 
 
+def clone_layer(quick_s=15, thorough_s=300):
+    """C17 bounded layer (runtime/clone_check.py): original vs deepcopy/pickle clone on random machines and histories."""
+    import json as _json
+
+    def run(tier, seed, run_native):
+        limit = thorough_s if tier == "thorough" else quick_s
+        rc, out, err = run_native(["-m", "runtime.clone_check", str(limit), str(seed)], timeout=limit * 2 + 120)
+        try:
+            res = _json.loads(out.strip().splitlines()[-1])
+        except Exception:
+            return {"what": "C17 clone layer", "error": (err or out)[-400:], "violations": []}
+        r = {"what": "C17 clone layer: random machines (2-4 states, falsy state values, guards that depend on private attributes, constructor and "
+                     "add_listener listeners, external model, sync/async, rtc on/off) driven through a random prefix, cloned by deepcopy or pickle "
+                     "(also before the initial activation of an async machine), then original and clone driven through the same suffix and "
+                     "compared (traces, results, exceptions, attributes, listener logs, relative order of machine and listener callbacks), and the "
+                     "original re-checked after the clone alone is driven further (bounded, not a proof)",
+             "bound": f"time budget {limit}s, seed {seed}; prefixes <= 4 events, suffixes <= 5 events",
+             "evaluations": res.get("cases"), "distinct": res.get("cases"), "seconds": res.get("seconds"), "violations": []}
+        if res.get("violation"):
+            r["violations"].append({"name": "bounded:C17:clone-differs-from-or-shares-state-with-the-original", "replay": res.get("replay"),
+                                    "difference": res["violation"]})
+        return r
+    return run
+
+
 def api_layer(pid, quick_s=6, thorough_s=90):
     """Bounded API-level stand-in (runtime/api_checks.py): random small cases on the real library vs a
     reference computed from the property statement.  Never counted as proved."""
@@ -216,7 +241,7 @@ PROPERTIES = {
                 "operands of guard expressions are read without side effects (OperandCall oracle)",
                 "build_expression / parse_boolean_expr (AST walk) and Listeners.build are not under contract yet: the AST->closure mapping is covered by the bounded lexical layer only; the five combinator closures, the guard conjunction (all/async_all, expected_value) and CallbacksRegistry.check are proved",
                 "operator.eq/ne/gt/ge/lt/le are Python's comparisons (CMP)"]},
-    "C17": {"assumptions": [
+    "C17": {"bounded": [clone_layer()], "assumptions": [
         "copy.deepcopy / pickle protocol: the dict returned by __getstate__ is deep-copied and __setstate__ runs on a blank instance (so original and clone share no mutable state)",
         "_register_callbacks / add_listener / _get_engine / async_or_sync / engine.start enter through abstract contracts read off their bodies (what they do to has_async_callbacks, the listeners and the pending activation)",
         "behavioural equality after the round trip follows from equal views (same class, stored value, options, listeners, engine kind, pending activation) by the engine contracts of C01-C04"]},
